@@ -167,6 +167,11 @@ func runC02(c *Ctx) {
 	c.Rule("INPUT-ORDER", "values hashed into a digest do not depend on the order in which modules were listed", 1)
 	ruleOrderMatchesIdentity(c, "ORDER-TOTAL")
 	ruleArgmax(c, "ARGMAX", p.ModulePkgs(), 2)
+	c02CancelGated(c, "CANCEL-GATED")
+	if q := p.Pkg("private/bufpkg/bufmodule"); q != nil {
+		ruleFilteredPreferred(c, "TARGETS-PREFERRED", q, 1)
+	}
+	ruleSortCoversAppended(c, "SORT-COVERS-APPENDED", p.ModulePkgs(), 1)
 
 	usedTriage := map[string]bool{}
 	usedAppend := map[string]bool{}
